@@ -42,6 +42,10 @@ func (ctx Ctx) mapType(e *ast.MapType) coq.MapType {
 }
 
 func (ctx Ctx) selectorExprType(e *ast.SelectorExpr) coq.Expr {
+	if !ctx.isBuiltinPkg(e.X) {
+		// a user package that is merely named like a built-in one
+		return ctx.coqTypeOfType(e, ctx.typeOf(e))
+	}
 	if isIdent(e.X, "filesys") && isIdent(e.Sel, "File") {
 		return coq.TypeIdent("fileT")
 	}
@@ -96,10 +100,10 @@ func (ctx Ctx) coqTypeOfType(n ast.Node, t types.Type) coq.Type {
 		if t.Obj().Pkg() == nil {
 			ctx.unsupported(n, "unexpected built-in type %v", t.Obj())
 		}
-		if t.Obj().Pkg().Name() == "filesys" && t.Obj().Name() == "File" {
+		if isBuiltinPkgNamed(t.Obj().Pkg(), "filesys") && t.Obj().Name() == "File" {
 			return coq.TypeIdent("fileT")
 		}
-		if t.Obj().Pkg().Name() == "disk" && t.Obj().Name() == "Disk" {
+		if isBuiltinPkgNamed(t.Obj().Pkg(), "disk") && t.Obj().Name() == "Disk" {
 			return coq.TypeIdent("disk.Disk")
 		}
 		if info, ok := ctx.getStructInfo(t); ok {
@@ -209,11 +213,17 @@ func (ctx Ctx) coqType(e ast.Expr) coq.Type {
 	return coq.TypeIdent("<type>")
 }
 
+// isBuiltinPkgNamed reports whether pkg is one of the packages with a built-in
+// meaning (builtinImports, by import path) and is called name.
+func isBuiltinPkgNamed(pkg *types.Package, name string) bool {
+	return pkg != nil && pkg.Name() == name && builtinImports[pkg.Path()]
+}
+
 func isLockRef(t types.Type) bool {
 	if t, ok := t.(*types.Pointer); ok {
 		if t, ok := t.Elem().(*types.Named); ok {
 			name := t.Obj()
-			return name.Pkg() != nil && name.Pkg().Name() == "sync" &&
+			return isBuiltinPkgNamed(name.Pkg(), "sync") &&
 				name.Name() == "Mutex"
 		}
 	}
@@ -224,7 +234,7 @@ func isCFMutexRef(t types.Type) bool {
 	if t, ok := t.(*types.Pointer); ok {
 		if t, ok := t.Elem().(*types.Named); ok {
 			name := t.Obj()
-			return name.Pkg() != nil && name.Pkg().Name() == "cfmutex" &&
+			return isBuiltinPkgNamed(name.Pkg(), "cfmutex") &&
 				name.Name() == "CFMutex"
 		}
 	}
@@ -235,7 +245,7 @@ func isCondVar(t types.Type) bool {
 	if t, ok := t.(*types.Pointer); ok {
 		if t, ok := t.Elem().(*types.Named); ok {
 			name := t.Obj()
-			return name.Pkg() != nil && name.Pkg().Name() == "sync" &&
+			return isBuiltinPkgNamed(name.Pkg(), "sync") &&
 				name.Name() == "Cond"
 		}
 	}
@@ -246,7 +256,7 @@ func isWaitGroup(t types.Type) bool {
 	if t, ok := t.(*types.Pointer); ok {
 		if t, ok := t.Elem().(*types.Named); ok {
 			name := t.Obj()
-			return name.Pkg() != nil && name.Pkg().Name() == "sync" &&
+			return isBuiltinPkgNamed(name.Pkg(), "sync") &&
 				name.Name() == "WaitGroup"
 		}
 	}
@@ -257,8 +267,7 @@ func isProphId(t types.Type) bool {
 	if t, ok := t.(*types.Pointer); ok {
 		if t, ok := t.Elem().(*types.Named); ok {
 			name := t.Obj()
-			return name.Pkg() != nil &&
-				(name.Pkg().Name() == "machine" || name.Pkg().Name() == "primitive") &&
+			return (isBuiltinPkgNamed(name.Pkg(), "machine") || isBuiltinPkgNamed(name.Pkg(), "primitive")) &&
 				name.Name() == "prophId"
 		}
 	}
